@@ -21,9 +21,17 @@ Print Assumptions C04_trace_is_protocol_prefix.
 
 (* naming systems returned by a generator are visible to that generator only *)
 Theorem C04_namers_private : forall c g,
-  visible_namers c g = match gnamers g with None => sort_strs (namers c) | Some l => union_sorted (namers c) l end.
+  visible_namers c g = match gnamers g with
+                       | None => map (own_mark false) (sort_strs (namers c))
+                       | Some l => map (fun n => own_mark (mem_str n l) n) (union_sorted (namers c) l) end.
 Proof. exact namers_private. Qed.
 Print Assumptions C04_namers_private.
+
+(* ... and on a name collision the generator's own system wins over the context's: a visible name is
+   bound to the generator's system exactly when the generator returned a system of that name *)
+Theorem C04_own_namer_wins : forall c g l n b, gnamers g = Some l -> In (own_mark b n) (visible_namers c g) -> b = mem_str n l.
+Proof. exact own_namer_wins. Qed.
+Print Assumptions C04_own_namer_wins.
 
 (* generators naming the same file contribute to one file in generator order *)
 Theorem C04_file_merge : forall itoa c t pord g files ev files',
